@@ -470,6 +470,22 @@ func (m *ContractModel) Apply(tx CTx) CExpect {
 				exp.Flags["borrow-after-add-same-tx"] = true
 			}
 			logf("borrow %t", res)
+		case "obs":
+			var ns []string
+			for _, n := range m.Names {
+				if _, ok := code[CKey{a.Acct, n}]; ok {
+					ns = append(ns, n)
+				}
+			}
+			sort.Strings(ns)
+			if cur, ok := code[k]; ok {
+				logf("obs %s|%d|%s|%s", strings.Join(ns, ","), len(ns), a.Name, m.src(k, cur).Code)
+			} else {
+				logf("obs %s|%d|nil|nil", strings.Join(ns, ","), len(ns))
+			}
+			if len(exp.HostCalls) > 0 {
+				exp.Flags["observation-after-change-same-tx"] = true
+			}
 		case "names":
 			var ns []string
 			for _, n := range m.Names {
@@ -579,6 +595,11 @@ func (m *ContractModel) Source(tx CTx) string {
 				i, acct, a.Name, i)
 		case "borrow":
 			fmt.Fprintf(&b, "    log(\"borrow \".concat(%s.contracts.borrow<&AnyStruct>(name: %q) != nil ? \"true\" : \"false\"))\n", acct, a.Name)
+		case "obs":
+			fmt.Fprintf(&b, "    var s%d = \"\"\n    for n in %s.contracts.names { s%d = s%d.concat(s%d == \"\" ? \"\" : \",\").concat(n) }\n", i, acct, i, i, i)
+			fmt.Fprintf(&b, "    let g%d = %s.contracts.get(name: %q)\n", i, acct, a.Name)
+			fmt.Fprintf(&b, "    log(\"obs \".concat(s%d).concat(\"|\").concat(%s.contracts.names.length.toString()).concat(\"|\").concat(g%d?.name ?? \"nil\").concat(\"|\").concat(g%d == nil ? \"nil\" : (String.fromUTF8(g%d!.code) ?? \"<bad utf8>\")))\n",
+				i, acct, i, i, i)
 		case "names":
 			fmt.Fprintf(&b, "    var s%d = \"\"\n    for n in %s.contracts.names { s%d = s%d.concat(s%d == \"\" ? \"\" : \",\").concat(n) }\n    log(\"names \".concat(s%d))\n", i, acct, i, i, i, i)
 		case "version":
@@ -674,6 +695,61 @@ type ContractHistory struct {
 }
 
 var validIDs = []int{SV1, SCompatFn, SCompatNested, SFieldAdded, SFieldRetyped, SFieldRemoved, SEnum, SEnumMore, SEnumReordered, SInterface, SInterface2, SInitPanics}
+
+// genGoals steers the generator towards the ingredients of a non-trivial history.
+type genGoals struct {
+	failedTry      bool          // a tryUpdate failed on a deployed contract
+	addAfterRemove bool          // an add succeeded on a name removed by an earlier transaction
+	removed        map[CKey]bool // names removed by committed transactions
+}
+
+// goalAction returns an action that works towards an unmet goal, if one applies.
+func (m *ContractModel) goalAction(c Chooser, g *genGoals, shadow map[CKey]int, start map[CKey]int, addedHere map[CKey]bool) (CAction, bool) {
+	if !g.failedTry {
+		var cand []CKey
+		for _, k := range m.Keys() {
+			if id, ok := shadow[k]; ok && start[k] == id && !m.src(k, id).Iface {
+				if _, was := start[k]; was {
+					cand = append(cand, k)
+				}
+			}
+		}
+		if len(cand) > 0 {
+			k := cand[c.Intn("goalkey", len(cand))]
+			var no []int
+			for _, id := range validIDs {
+				if !UpdateAccepted(m.src(k, shadow[k]), m.src(k, id)) {
+					no = append(no, id)
+				}
+			}
+			if len(no) > 0 {
+				return CAction{Op: "tryUpdate", Acct: k.Acct, Name: k.Name, Src: no[c.Intn("goalsrc", len(no))]}, true
+			}
+		}
+	}
+	if !g.addAfterRemove {
+		var free, removable []CKey
+		for _, k := range m.Keys() {
+			id, dep := shadow[k]
+			_, atStart := start[k]
+			switch {
+			case !dep && g.removed[k] && !atStart:
+				free = append(free, k)
+			case dep && atStart && !addedHere[k] && !m.src(k, id).HasEnum():
+				removable = append(removable, k)
+			}
+		}
+		if len(free) > 0 {
+			k := free[c.Intn("goalkey", len(free))]
+			return CAction{Op: "add", Acct: k.Acct, Name: k.Name, Src: []int{SV1, SCompatFn, SFieldAdded, SFieldRetyped}[c.Intn("goalsrc", 4)]}, true
+		}
+		if len(removable) > 0 {
+			k := removable[c.Intn("goalkey", len(removable))]
+			return CAction{Op: "remove", Acct: k.Acct, Name: k.Name}, true
+		}
+	}
+	return CAction{}, false
+}
 
 func (m *ContractModel) genAction(c Chooser, tx *CTx, shadow map[CKey]int, start map[CKey]int, addedHere map[CKey]bool, o ContractGenOptions) (CAction, bool) {
 	acct := m.Accts[c.Intn("acct", len(m.Accts))]
@@ -834,7 +910,8 @@ func GenContractHistory(c Chooser, o ContractGenOptions) *ContractHistory {
 	}
 	m := NewContractModel([]int{1, 2}, []string{"A", "B", "C"})
 	h := &ContractHistory{Accts: m.Accts, Names: m.Names}
-	total := 6 + c.Intn("actions", o.MaxActions-5)
+	total := 10 + c.Intn("actions", o.MaxActions-9)
+	goals := &genGoals{removed: map[CKey]bool{}}
 	for n := 0; n < total; {
 		tx := CTx{}
 		shadow := map[CKey]int{}
@@ -845,13 +922,43 @@ func GenContractHistory(c Chooser, o ContractGenOptions) *ContractHistory {
 		addedHere := map[CKey]bool{}
 		cnt := 1 + c.Intn("txlen", 3)
 		for i := 0; i < cnt; i++ {
-			a, ok := m.genAction(c, &tx, shadow, start, addedHere, o)
+			var a CAction
+			ok := false
+			if (!goals.failedTry || !goals.addAfterRemove) && Chance(c, "goal", 2, 5) {
+				a, ok = m.goalAction(c, goals, shadow, start, addedHere)
+			}
+			if !ok {
+				a, ok = m.genAction(c, &tx, shadow, start, addedHere, o)
+			}
 			n++
 			if !ok {
 				continue
 			}
+			lifecycle := a.Op == "add" || a.Op == "update" || a.Op == "tryUpdate" || a.Op == "remove"
+			k := CKey{a.Acct, a.Name}
+			callable := false
+			if id, was := start[k]; was && !m.src(k, id).Iface {
+				callable = true
+			}
+			// observe through the same account reference before and after every
+			// lifecycle call: names, names.length, get(name:) and a call of the contract
+			if lifecycle && Chance(c, "pre-observe", 1, 2) {
+				tx.Actions = append(tx.Actions, CAction{Op: "obs", Acct: a.Acct, Name: a.Name})
+				if callable && Chance(c, "pre-call", 1, 2) {
+					tx.Actions = append(tx.Actions, CAction{Op: "version", Acct: a.Acct, Name: a.Name})
+				}
+			}
 			m.shadowApply(a, shadow, addedHere)
 			tx.Actions = append(tx.Actions, a)
+			if lifecycle {
+				tx.Actions = append(tx.Actions, CAction{Op: "obs", Acct: a.Acct, Name: a.Name})
+				if !(o.Avoid["FK1"] && addedHere[k]) && Chance(c, "post-borrow", 1, 2) {
+					tx.Actions = append(tx.Actions, CAction{Op: "borrow", Acct: a.Acct, Name: a.Name})
+				}
+				if callable && Chance(c, "post-call", 2, 3) {
+					tx.Actions = append(tx.Actions, CAction{Op: []string{"version", "tag", "bump"}[c.Intn("which-call", 3)], Acct: a.Acct, Name: a.Name})
+				}
+			}
 		}
 		if len(tx.Actions) == 0 {
 			continue
@@ -861,6 +968,24 @@ func GenContractHistory(c Chooser, o ContractGenOptions) *ContractHistory {
 		st.Expect = m.Apply(tx)
 		st.Verify, st.VerifyWant = m.VerifyScript()
 		h.Steps = append(h.Steps, st)
+		if !st.Expect.Fails {
+			if st.Expect.Flags["tryUpdate-failed-deployed"] {
+				goals.failedTry = true
+			}
+			for _, a := range tx.Actions {
+				k := CKey{a.Acct, a.Name}
+				switch a.Op {
+				case "remove":
+					if _, still := m.State[k]; !still {
+						goals.removed[k] = true
+					}
+				case "add":
+					if goals.removed[k] {
+						goals.addAfterRemove = true
+					}
+				}
+			}
+		}
 	}
 	return h
 }
